@@ -18,17 +18,22 @@ pub enum Form {
     GuardSync,
     /// `#[emit::span(rt, when: from_fn(|_| enabled), ..)] fn` (the `when` parameter decides instead of the runtime filter)
     WhenSync,
+    /// `#[emit::span(rt, ok_lvl: .., ..)] fn -> Result` (the expansion that wraps the body in a closure and
+    /// completes through `complete_with`); odd nodes return `Err`
+    ResultSync,
     /// `#[emit::span(..)] async fn`
     AsyncFn,
     /// `emit::new_span!` + `frame.in_future(async move { guard.start(); ..; guard.complete() }).await`
     ManualFuture,
     /// `#[emit::span(rt, guard: span, ..)] async fn`
     GuardAsync,
+    /// `#[emit::span(rt, err_lvl: .., ..)] async fn -> Result`; odd nodes return `Err`
+    ResultAsync,
 }
 
 impl Form {
     pub fn is_async(self) -> bool {
-        matches!(self, Form::AsyncFn | Form::ManualFuture | Form::GuardAsync)
+        matches!(self, Form::AsyncFn | Form::ManualFuture | Form::GuardAsync | Form::ResultAsync)
     }
     pub fn label(self) -> &'static str {
         match self {
@@ -37,6 +42,8 @@ impl Form {
             Form::ManualEnter => "form:manual-enter",
             Form::GuardSync => "form:guard-sync",
             Form::WhenSync => "form:when-sync",
+            Form::ResultSync => "form:result-sync",
+            Form::ResultAsync => "form:result-async",
             Form::AsyncFn => "form:async-fn",
             Form::ManualFuture => "form:manual-future",
             Form::GuardAsync => "form:guard-async",
@@ -64,9 +71,11 @@ pub enum Item {
     /// run `items` on a fresh thread; `carry` = inside `Frame::current(rt.ctxt())` captured here;
     /// `fut` = through `Frame::in_future` + a block_on on that thread instead of `Frame::call`
     Hop { carry: bool, fut: bool, items: Vec<Item> },
-    /// poll the tasks on the hand-rolled executor in the order given by `schedule` (then round robin);
-    /// `carry` wraps each task in `Frame::current(rt.ctxt()).in_future(..)`
-    Join { carry: bool, tasks: Vec<Vec<Item>>, schedule: Vec<u8> },
+    /// poll the tasks on the hand-rolled executor in the order given by `schedule` (low 3 bits pick the
+    /// live task; then round robin); `carry` wraps each task in `Frame::current(rt.ctxt()).in_future(..)`;
+    /// `migrate` (only with `carry`) runs the polls whose schedule entry has bit 3 set on a fresh thread,
+    /// like a work-stealing runtime resuming a spawned task on another worker
+    Join { carry: bool, migrate: bool, tasks: Vec<Vec<Item>>, schedule: Vec<u8> },
 }
 
 #[derive(Serialize, Deserialize, Debug, Clone, Copy, PartialEq, Eq)]
@@ -145,7 +154,7 @@ pub enum PItem {
     Check { id: usize },
     Yield,
     Hop { carry: bool, fut: bool, items: Vec<PItem>, pre: usize, post: usize },
-    Join { carry: bool, tasks: Vec<Vec<PItem>>, schedule: Vec<u8>, post: usize },
+    Join { carry: bool, migrate: bool, tasks: Vec<Vec<PItem>>, schedule: Vec<u8>, post: usize },
 }
 
 #[derive(Debug, Clone)]
@@ -168,6 +177,7 @@ pub struct Stats {
     pub hops_bare: usize,
     pub hops_future: usize,
     pub joins_carry: usize,
+    pub joins_migrating: usize,
     pub events: usize,
     pub events_in_disabled: bool,
     pub async_nodes: usize,
@@ -294,8 +304,11 @@ impl Numberer {
                 let post = self.check(w.scope);
                 PItem::Hop { carry: *carry, fut: *fut, items, pre, post }
             }
-            Item::Join { carry, tasks, schedule } => {
+            Item::Join { carry, migrate, tasks, schedule } => {
                 self.stats.joins += 1;
+                if *carry && *migrate && schedule.iter().any(|v| v & 8 != 0) {
+                    self.stats.joins_migrating += 1;
+                }
                 self.stats.join_tasks_max = self.stats.join_tasks_max.max(tasks.len());
                 if *carry {
                     self.stats.joins_carry += 1;
@@ -306,7 +319,7 @@ impl Numberer {
                 }
                 let tasks = tasks.iter().map(|t| self.items(t, Where { in_async: true, ..w })).collect();
                 let post = self.check(w.scope);
-                PItem::Join { carry: *carry, tasks, schedule: schedule.clone(), post }
+                PItem::Join { carry: *carry, migrate: *carry && *migrate, tasks, schedule: schedule.clone(), post }
             }
         }
     }
